@@ -379,14 +379,30 @@ class CFG:
 
         def skip(a, b, label):
             if a.kind in ("if", "while") and label in ("true", "false"):
-                test, want = a.ast.test, label == "true"
-                # `if not X` going one way is `if X` going the other
-                while isinstance(test, ast.UnaryOp) and isinstance(test.op, ast.Not):
-                    test, want = test.operand, not want
-                t = unparse(test)
-                if t in amap and amap[t] != want:
+                # three-valued evaluation of the test under the assumptions: a conjunction of assumed-true atoms
+                # cannot go the false way, one assumed-false conjunct forbids the true way (and dually for `or`)
+                val = ev(a.ast.test)
+                if val is not None and val != (label == "true"):
                     return True
             return False
+
+        def ev(test):
+            if isinstance(test, ast.UnaryOp) and isinstance(test.op, ast.Not):
+                v = ev(test.operand)
+                return None if v is None else not v
+            t = unparse(test)
+            if t in amap:
+                return amap[t]
+            if isinstance(test, ast.BoolOp):
+                vs = [ev(v) for v in test.values]
+                if isinstance(test.op, ast.And):
+                    if any(v is False for v in vs):
+                        return False
+                    return True if all(v is True for v in vs) else None
+                if any(v is True for v in vs):
+                    return True
+                return False if all(v is False for v in vs) else None
+            return None
 
         return skip
 
